@@ -93,6 +93,11 @@ func findSelectorExprViolation(
 		return nil
 	}
 
+	// A type named through an alias (pkg.Alias) is a use of the aliased type
+	if tn, ok := obj.(*types.TypeName); ok {
+		obj = resolveTypeName(tn)
+	}
+
 	// Get package information
 	pkg := obj.Pkg()
 	if pkg == nil {
@@ -123,6 +128,22 @@ func findSelectorExprViolation(
 	return nil
 }
 
+// resolveTypeName follows a type alias to the defined type it denotes, also
+// behind a pointer (type P = *T). Other type names are returned unchanged.
+func resolveTypeName(obj *types.TypeName) *types.TypeName {
+	if !obj.IsAlias() {
+		return obj
+	}
+	t := types.Unalias(obj.Type())
+	if ptr, ok := t.(*types.Pointer); ok {
+		t = types.Unalias(ptr.Elem())
+	}
+	if named, ok := t.(*types.Named); ok {
+		return named.Obj()
+	}
+	return obj
+}
+
 // findIdentViolation checks identifier usage for local package objects
 // Returns violation or nil
 func findIdentViolation(
@@ -132,6 +153,13 @@ func findIdentViolation(
 	obj := ctx.pass.TypesInfo.ObjectOf(ident)
 	if obj == nil {
 		return nil
+	}
+
+	// A local alias of a type declared in another package is a use of that type
+	if tn, ok := obj.(*types.TypeName); ok && tn.Pkg() != nil && tn.Pkg().Path() == ctx.currentPkgPath {
+		if resolved := resolveTypeName(tn); resolved.Pkg() != nil && resolved.Pkg().Path() != ctx.currentPkgPath {
+			return findTypeViolation(ctx, resolved.Pkg().Path(), resolved.Name(), ident.Pos())
+		}
 	}
 
 	// Only check local package objects (imports are handled by selector expressions)
